@@ -291,6 +291,12 @@ def _borrowed(an: Analysis) -> None:
     # C09.6: the completion bookkeeping run by MetricsContext.__exit__ cannot raise (a failing assertion there would replace the
     # body's exception / make a normal exit raise)
     borrow(an, c09.check, {"C09.8": "C02.8", "C09.6": "C02.9"})
+    from . import c08
+
+    # C08.1: every disposable is entered and exited through the gather fan-out, i.e. in a task (and context copy) of its own - what a
+    # disposable does to the context variables while it is alive never lands in the scope owner's context, where it would be reset
+    # out of order when the scope is left
+    borrow(an, c08.check, {"C08.1": "C02.10"})
 
 
 def enter_rollback(an: Analysis, ob, must_call: str, what: str) -> None:
